@@ -51,6 +51,13 @@ class Run:
         if os.path.exists(sumsrc):
             shutil.copy(sumsrc, os.path.join(HARNESS, "go.sum"))
         cmd = ["go", "build", "-tags", tags, "-o", out]
+        if REPO != "/repo":
+            # development aid: evaluate a scratch copy of the repository without touching /repo
+            mod = open(os.path.join(HARNESS, "go.mod")).read().replace("=> /repo", "=> " + REPO)
+            mf = os.path.join(self.tmp, "go.verif.mod")
+            open(mf, "w").write(mod)
+            shutil.copy(sumsrc, os.path.join(self.tmp, "go.verif.sum"))
+            cmd.append("-modfile=" + mf)
         if race:
             cmd.append("-race")
         cmd.append("./cmd/" + name)
@@ -74,6 +81,32 @@ class Run:
             raise Broken("driver failed (%d): %s %s\n%s\n%s" % (p.returncode, os.path.basename(path),
                                                                 " ".join(args), p.stdout[-2000:], p.stderr[-3000:]))
         return p
+
+    def run_driver(self, path, args, timeout=600, stage=""):
+        """Run a driver of the real code. A crash of the process inside rulio (panic,
+        fatal error, stack overflow) that reproduces is a violation (the journal of the
+        run is the replay); anything else that goes wrong is a broken check."""
+        e = dict(GOENV)
+        def once():
+            try:
+                return subprocess.run([path] + args, cwd=self.tmp, env=e, stdout=subprocess.PIPE,
+                                      stderr=subprocess.PIPE, text=True, timeout=timeout)
+            except subprocess.TimeoutExpired as ex:
+                return ex
+        p = once()
+        if isinstance(p, subprocess.TimeoutExpired):
+            raise Broken("driver timed out: %s %s" % (os.path.basename(path), " ".join(args)))
+        if p.returncode == 0:
+            return p
+        sig = crash_signature(p.stderr)
+        if sig is None:
+            raise Broken("driver failed (%d): %s %s\n%s" % (p.returncode, os.path.basename(path), " ".join(args), p.stderr[-3000:]))
+        p2 = once()
+        if isinstance(p2, subprocess.TimeoutExpired) or p2.returncode == 0 or crash_signature(p2.stderr) is None:
+            raise Broken("driver crashed once but not on re-run: %s\n%s" % (sig, p.stderr[-1500:]))
+        self.violation("process crash in rulio: " + sig, {"driver": os.path.basename(path), "args": args,
+                       "stderr_head": p.stderr[:3000]}, stage=stage or "crash")
+        return None
 
     # ------------------------------------------------------------------ TLC
     def _specdir(self):
@@ -246,6 +279,22 @@ class Run:
             self.prop, "VIOLATED" if self.violations else "held", self.tier, self.seed, cov["states"],
             cov["transitions"], cov["traces_validated_against_impl"], cov.get("events_validated", 0), wall))
         return 1 if self.violations else 0
+
+
+def crash_signature(stderr):
+    """First frames of a Go panic / fatal error if they lie in rulio or its matcher; None otherwise."""
+    m = re.search(r"^(panic: .*|fatal error: .*|runtime: goroutine stack exceeds.*)$", stderr, re.M)
+    if not m:
+        return None
+    frames = re.findall(r"^(github\.com/Comcast/[^\s(]+|verif/harness/[^\s(]+)\(", stderr[m.start():], re.M)
+    rulio = [f for f in frames if f.startswith("github.com/Comcast/")]
+    if not rulio:
+        return None
+    uniq = []
+    for f in rulio:
+        if f not in uniq:
+            uniq.append(f)
+    return "%s at %s" % (m.group(1)[:120], " <- ".join(uniq[:3]))
 
 
 def tail(s, n):
